@@ -505,41 +505,8 @@ func runC07(c *Ctx) {
 		}
 		return to == from.Succs[1]
 	}
-	// helpersIn: fn and the loader-only helpers it hands part of its work to — reached through calls whose error result
-	// is tested; the chain of those calls is kept so that each link can be checked for skippability
-	type place struct {
-		fn    *ssa.Function
-		chain []ssa.CallInstruction
-	}
-	lo := loaderOnly(p)
-	helpersIn := func(fn *ssa.Function) []place {
-		out := []place{{fn, nil}}
-		seen := map[*ssa.Function]bool{fn: true}
-		for i := 0; i < len(out) && len(out) < 12; i++ {
-			cur := out[i]
-			allInstrs(cur.fn, func(in ssa.Instruction) {
-				call, ok := in.(*ssa.Call)
-				if !ok {
-					return
-				}
-				h := call.Call.StaticCallee()
-				if h == nil || seen[h] || !lo[h] || len(h.Blocks) == 0 {
-					return
-				}
-				switch h {
-				case m.vtref, m.vargs, m.vdirs, m.vname, m.vdef, m.vdir, m.vimpl:
-					return // the checks themselves are not helpers of their callers
-				}
-				res := h.Signature.Results()
-				if res.Len() == 0 || !isGqlErrorPtr(res.At(res.Len()-1).Type()) {
-					return
-				}
-				seen[h] = true
-				out = append(out, place{h, append(append([]ssa.CallInstruction{}, cur.chain...), call)})
-			})
-		}
-		return out
-	}
+	type place = c07Place
+	helpersIn := func(fn *ssa.Function) []place { return c07HelpersIn(p, m, fn) }
 	for _, w := range wants {
 		found := 0
 		var places []place
@@ -638,27 +605,30 @@ func runC07(c *Ctx) {
 		if !found {
 			r2.Fail(m.vdef.Pos(), p.FuncName(m.vdef), "no validateImplements over Definition.Interfaces", "implemented interfaces are no longer validated")
 		}
-		// union members
+		// union members (in validateDefinition or a helper it hands them to)
 		foundU := false
-		allInstrs(m.vdef, func(in ssa.Instruction) {
-			l, ok := schemaMapLookup(in, "Types")
-			if !ok || !c07RangeElemOf(l.Index, "Definition", "Types") {
-				return
-			}
-			foundU = true
-			// the looked-up value must be nil-tested and its Kind passed to isValidKind with {OBJECT}
-			okKind := false
-			for _, ci := range callsTo([]*ssa.Function{m.vdef}, m.isValid) {
-				if ks, ok := variadicConsts(ci.Common().Args[1]); ok && sameSet(ks, []string{"OBJECT"}) && derivesFrom(ci.Common().Args[0], l, 4) {
-					okKind = !canSkip(ci, nil)
+		for _, pl := range helpersIn(m.vdef) {
+			pl := pl
+			allInstrs(pl.fn, func(in ssa.Instruction) {
+				l, ok := schemaMapLookup(in, "Types")
+				if !ok || !c07RangeElemOf(l.Index, "Definition", "Types") {
+					return
 				}
-			}
-			if okKind && !canSkip(in, nil) {
-				r2.OK("union members: looked up and required to be OBJECT", "")
-			} else {
-				r2.Fail(in.Pos(), p.FuncName(m.vdef), "union member kind check", "union members are not required, on every path, to exist and be of kind OBJECT")
-			}
-		})
+				foundU = true
+				// the looked-up value must be nil-tested and its Kind passed to isValidKind with {OBJECT}
+				okKind := false
+				for _, ci := range callsTo([]*ssa.Function{pl.fn}, m.isValid) {
+					if ks, ok := variadicConsts(ci.Common().Args[1]); ok && sameSet(ks, []string{"OBJECT"}) && derivesFrom(ci.Common().Args[0], l, 4) {
+						okKind = !canSkip(ci, nil)
+					}
+				}
+				if okKind && !canSkip(in, nil) && !pl.chainSkippable() {
+					r2.OK("union members: looked up and required to be OBJECT", "")
+				} else {
+					r2.Fail(in.Pos(), p.FuncName(pl.fn), "union member kind check", "union members are not required, on every path, to exist and be of kind OBJECT")
+				}
+			})
+		}
 		if !foundU {
 			r2.Fail(m.vdef.Pos(), p.FuncName(m.vdef), "no lookup of Definition.Types members", "union members are no longer resolved and kind-checked")
 		}
@@ -1230,13 +1200,28 @@ func c07KindTables(c *Ctx, r *RuleResult, m *loaderModel) {
 	output := []string{"ENUM", "INTERFACE", "OBJECT", "SCALAR", "UNION"}
 	input := []string{"ENUM", "INPUT_OBJECT", "SCALAR"}
 	seenOut, seenIn := false, false
-	for _, ci := range callsTo([]*ssa.Function{m.vdef}, m.isValid) {
+	type kindCall struct {
+		ci ssa.CallInstruction
+		pl c07Place
+	}
+	var kcalls []kindCall
+	for _, pl := range c07HelpersIn(p, m, m.vdef) {
+		for _, ci := range callsTo([]*ssa.Function{pl.fn}, m.isValid) {
+			kcalls = append(kcalls, kindCall{ci, pl})
+		}
+	}
+	for _, kc := range kcalls {
+		ci := kc.ci
 		ks, ok := variadicConsts(ci.Common().Args[1])
 		if !ok {
 			r.Undecided(ci.Pos(), p.FuncName(m.vdef), "isValidKind arguments", "the accepted kinds are not constants")
 			continue
 		}
-		br := kindsAt(ci.Block())
+		br := kc.pl.kindsIn(ci.Block())
+		if kc.pl.chainSkippable() {
+			r.Fail(ci.Pos(), p.FuncName(kc.pl.fn), "kind check in a helper that can be skipped", "the helper holding this kind check is not called on every path, or its result is dropped")
+			continue
+		}
 		switch {
 		case sameSet(br, []string{"INTERFACE", "OBJECT"}):
 			seenOut = true
@@ -1310,43 +1295,49 @@ func c07KindTables(c *Ctx, r *RuleResult, m *loaderModel) {
 		kind, field string
 	}
 	need := map[em]bool{{"OBJECT", "Fields"}: false, {"INTERFACE", "Fields"}: false, {"ENUM", "EnumValues"}: false, {"INPUT_OBJECT", "Fields"}: false}
-	allInstrs(m.vdef, func(in ssa.Instruction) {
-		bo, ok := in.(*ssa.BinOp)
-		if !ok || bo.Op != token.EQL {
-			return
+	for _, pl := range c07HelpersIn(p, m, m.vdef) {
+		pl := pl
+		if pl.chainSkippable() {
+			continue
 		}
-		k, isK := constInt(bo.Y)
-		if !isK || k != 0 {
-			return
-		}
-		call, ok := bo.X.(*ssa.Call)
-		if !ok {
-			return
-		}
-		if b, ok := call.Call.Value.(*ssa.Builtin); !ok || b.Name() != "len" {
-			return
-		}
-		st, fld, ok := fieldLoadOf(call.Call.Args[0])
-		if !ok || st != "Definition" {
-			return
-		}
-		// the true edge must lead to a failure return
-		blk := in.Block()
-		ifi, ok := blk.Instrs[len(blk.Instrs)-1].(*ssa.If)
-		if !ok || ifi.Cond != ssa.Value(bo) {
-			return
-		}
-		tgt := blk.Succs[0]
-		ret, ok := tgt.Instrs[len(tgt.Instrs)-1].(*ssa.Return)
-		if !ok || !isFailureReturn(ret) {
-			return
-		}
-		for _, kd := range kindsAt(blk) {
-			if _, ok := need[em{kd, fld}]; ok {
-				need[em{kd, fld}] = true
+		allInstrs(pl.fn, func(in ssa.Instruction) {
+			bo, ok := in.(*ssa.BinOp)
+			if !ok || bo.Op != token.EQL {
+				return
 			}
-		}
-	})
+			k, isK := constInt(bo.Y)
+			if !isK || k != 0 {
+				return
+			}
+			call, ok := bo.X.(*ssa.Call)
+			if !ok {
+				return
+			}
+			if b, ok := call.Call.Value.(*ssa.Builtin); !ok || b.Name() != "len" {
+				return
+			}
+			st, fld, ok := fieldLoadOf(call.Call.Args[0])
+			if !ok || st != "Definition" {
+				return
+			}
+			// the true edge must lead to a failure return
+			blk := in.Block()
+			ifi, ok := blk.Instrs[len(blk.Instrs)-1].(*ssa.If)
+			if !ok || ifi.Cond != ssa.Value(bo) {
+				return
+			}
+			tgt := blk.Succs[0]
+			ret, ok := tgt.Instrs[len(tgt.Instrs)-1].(*ssa.Return)
+			if !ok || !isFailureReturn(ret) {
+				return
+			}
+			for _, kd := range pl.kindsIn(blk) {
+				if _, ok := need[em{kd, fld}]; ok {
+					need[em{kd, fld}] = true
+				}
+			}
+		})
+	}
 	for e, ok := range need {
 		if ok {
 			r.OK("a "+e.kind+" with no "+e.field+" is rejected", "")
@@ -1947,4 +1938,72 @@ func mergeSkipHarmless(merge *ssa.Function, field string) func(from, to *ssa.Bas
 		}
 		return false
 	}
+}
+
+// c07Place: a function of the loader together with the chain of calls (each with a tested error result) through which a
+// check function hands part of its work to it.
+type c07Place struct {
+	fn    *ssa.Function
+	chain []ssa.CallInstruction
+}
+
+var c07LoaderOnlyMemo map[*ssa.Function]bool
+
+// c07HelpersIn: fn and the loader-only helpers it hands part of its work to — reached through calls whose error result
+// is tested; the chain of those calls is kept so that each link can be checked for skippability and context.
+func c07HelpersIn(p *Program, m *loaderModel, fn *ssa.Function) []c07Place {
+	if c07LoaderOnlyMemo == nil {
+		c07LoaderOnlyMemo = loaderOnly(p)
+	}
+	lo := c07LoaderOnlyMemo
+	out := []c07Place{{fn, nil}}
+	seen := map[*ssa.Function]bool{fn: true}
+	for i := 0; i < len(out) && len(out) < 12; i++ {
+		cur := out[i]
+		allInstrs(cur.fn, func(in ssa.Instruction) {
+			call, ok := in.(*ssa.Call)
+			if !ok {
+				return
+			}
+			h := call.Call.StaticCallee()
+			if h == nil || seen[h] || !lo[h] || len(h.Blocks) == 0 {
+				return
+			}
+			switch h {
+			case m.vtref, m.vargs, m.vdirs, m.vname, m.vdef, m.vdir, m.vimpl:
+				return // the checks themselves are not helpers of their callers
+			}
+			res := h.Signature.Results()
+			if res.Len() == 0 || !isGqlErrorPtr(res.At(res.Len()-1).Type()) {
+				return
+			}
+			seen[h] = true
+			out = append(out, c07Place{h, append(append([]ssa.CallInstruction{}, cur.chain...), call)})
+		})
+	}
+	return out
+}
+
+// chainSkippable: one of the calls that lead to the helper can be bypassed, or its result is dropped.
+func (pl c07Place) chainSkippable() bool {
+	for _, link := range pl.chain {
+		if canSkip(link, nil) || !errResultUsed(link.(*ssa.Call), 1) {
+			return true
+		}
+	}
+	return false
+}
+
+// kindsIn: the definition kinds under which block b of the place runs — those established in the helper itself, else
+// those of the innermost call of the chain that lies under a kind test.
+func (pl c07Place) kindsIn(b *ssa.BasicBlock) []string {
+	if ks := kindsAt(b); len(ks) > 0 {
+		return ks
+	}
+	for i := len(pl.chain) - 1; i >= 0; i-- {
+		if ks := kindsAt(pl.chain[i].Block()); len(ks) > 0 {
+			return ks
+		}
+	}
+	return nil
 }
